@@ -93,7 +93,8 @@ theorem never_panic (hl : ValidLevel conf) (t : String) : ciIndices crit conf n 
   ciIndices_ne_panic crit conf n q hl t
 
 /-- the errors `ci_indices` can return are the five of `domain` — in particular never
-    `IndexError` (the Wilson bounds lie in `[0,1]`) and never `InvalidSuccesses` (`k ≤ n`) -/
+    `IndexError` (the exact Wilson bounds lie in `[0,1]`; the clamp of `ci_wilson` is inert) and
+    never `InvalidSuccesses` (`k ≤ n`) -/
 theorem error_cases (hl : ValidLevel conf) (e : Err Rex)
     (h : ciIndices crit conf n q = .err e) :
     e = .invalidQuantile q ∨ e = .tooFewSamples n ∨
